@@ -4,12 +4,16 @@ Structural necessary conditions, each of which when violated gives a concrete
 out-of-bounds access or use of an invalid handle (DESIGN.md section 3, C08):
   BUF-LEN     at every call of a scalar recoder the length handed in times the row factor fits the buffer handed in
   REC-GUARD   inside each recoder every write through the buffer is preceded by a comparison of *len whose failing side leaves
-  WRAP        an unsigned subtraction that bounds a loop or a comparison cannot wrap
+              (the bound must still be in force at the write: its operands unchanged since the test; stores whose index is
+              itself compared with *len are accepted individually)
+  WRAP        (c08_wrap.py) an unsigned subtraction that bounds a loop or decides a comparison cannot wrap
+  WRITE-GUARD (c08_wguard.py) no write through a caller's (buffer, capacity) pair before the capacity has been examined
   CAP         a digit store into a multiple-precision integer is preceded by a capacity request that covers the index
-  CAP-EFF     a capacity refusal that can trigger cannot fall through into the digit writes it guards
-  COPY-BOUND  copies into local arrays / stack allocations fit them
+  COPY-IN     copies of an operand's digits into local arrays / stack allocations are bounded
   TYPESTATE   (DYNAMIC allocation) no handle is tested/freed/used while possibly uninitialised; stack allocations are NULL-tested
+  REALLOC-KEEP (DYNAMIC allocation) the result of realloc is kept in a temporary until it has been tested
   N0          batch functions do not touch element [0] / [n-1] when n may be 0
+  DIV0        no division / remainder by a parameter without a preceding test that it is not zero
 """
 import re
 
@@ -23,10 +27,13 @@ EXPLANATION = (
     "DYNAMIC-allocation configurations): forward must-dataflow with branch/assignment atoms over the exploded CFG "
     "(exceptional edges of the TRY protocol included) plus a small symbolic extent prover (polynomials over non-negative "
     "symbols with loop-index upper bounds). Decides: recoder buffers fit the lengths handed in (BUF-LEN), recoders refuse "
-    "short buffers before the first write (REC-GUARD), unsigned loop bounds cannot wrap (WRAP), digit stores are covered by "
-    "the preceding capacity request (CAP), capacity refusals cannot fall through into the writes they guard (CAP-EFF), "
-    "copies into local buffers fit (COPY-BOUND), and under DYNAMIC allocation no handle is used, tested or freed while "
-    "possibly uninitialised on any path including every allocation-failure edge (TYPESTATE). Does not decide the absence of "
+    "short buffers before the first write with a bound that is still in force at the write (REC-GUARD), unsigned "
+    "subtractions in loop bounds and comparisons cannot wrap (WRAP), no write through a caller's buffer precedes the first "
+    "examination of its capacity (WRITE-GUARD), digit stores are covered by the preceding capacity request (CAP), copies of "
+    "operand digits into local buffers are bounded (COPY-IN), batch functions do not touch elements of empty arrays (N0), "
+    "no division by an untested parameter (DIV0), and under DYNAMIC allocation no handle is used, tested or freed while "
+    "possibly uninitialised on any path including every allocation-failure edge (TYPESTATE) and a failed reallocation does "
+    "not overwrite the pointer it was given (REALLOC-KEEP). Does not decide the absence of "
     "all undefined behaviour: loops whose bounds depend on ->used of operands are not bounded. Nothing of RELIC is executed.")
 
 SELFTEST_CONFIGS = ["BASE", "DYN"]
@@ -392,11 +399,16 @@ REC_NEED = {
     "bn_rec_win": lambda P: _ceil(_bits(P["k"]), ("v", P["w"])),           # one entry per w-bit window
     "bn_rec_slw": lambda P: _bits(P["k"]),                                  # worst case one entry per bit
     "bn_rec_naf": lambda P: _add(_bits(P["k"]), 1),                         # NAF is at most one digit longer than k
-    "bn_rec_tnaf": lambda P: _add(_bits(P["k"]), 1),                        # reference: today's guard
-    "bn_rec_rtnaf": lambda P: _add(_bits(P["k"]), 1),                       # reference: today's guard
+    # tau-adic NAF: one entry per step of a division by tau, as many as the *reduced* element needs (about 2 log2 of its
+    # norm), not a function of bits(k): every write has to be bounded individually
+    "bn_rec_tnaf": lambda P: "unbounded",
+    # regular tau-adic NAF: exactly ceil((m + 2) / (w - 1)) entries in the loop, then one or two for the remainder
+    "bn_rec_rtnaf": lambda P: _add(_ceil(("b", "+", ("v", P["m"]), ("i", 2)), ("b", "-", ("v", P["w"]), ("i", 1))), 2),
     "bn_rec_reg": lambda P: _add(_ceil(("v", P["n"]), ("b", "-", ("v", P["w"]), ("i", 1))), 1),   # l digits plus the final carry digit
     "bn_rec_jsf": lambda P: _add(("b", "*", ("i", 2), _bits(P["k"])), 2),   # two rows of max(bits)+1 entries (lower bound with bits(k) only)
-    "bn_rec_sac": lambda P: _add(_ceil(("v", P["n"]), ("b", "*", ("v", P["c"]), ("v", P["m"]))), 2),   # l = ceil(n, c*m) + 1 columns, *len > l
+    # rows of l columns, l = max(ceil(n, c*m) + 1, bits(u) + 1, bits(k_i) + 1 on BN curves): the guard must still relate *len
+    # to the column count l that the writes use
+    "bn_rec_sac": lambda P: "reported",
 }
 
 
@@ -434,6 +446,13 @@ def rule_rec_guard(ctx, prog, chk):
             need_key = REC_NEED[base](P)
         except KeyError:
             raise AnalysisBroken("REC-GUARD: parameter names of %s changed; the contract table must be re-read" % fn.name)
+        if need_key == "reported":
+            # the column count is whatever the recoder reports back through *len at the end (`*len = l`)
+            rep = [sub[2] for el in fn.all_elements() for sub in ir.walk(fn, el.e)
+                   if sub[0] == "=" and key(fn, sub[1]) == starlen and ir.peel(fn, sub[2])[0] == "v"]
+            if not rep:
+                raise AnalysisBroken("REC-GUARD: %s no longer reports its column count through *%s; the contract must be re-read" % (fn.name, fn.vars[lenv]["n"]))
+            need_key = key(fn, rep[-1])
         holder = {}
         weak_edges = []
 
@@ -447,19 +466,13 @@ def rule_rec_guard(ctx, prog, chk):
                     guard = True
             if guard:
                 out.append(("ev", "lenguard"))
-                st = holder["F"].edge_state | frozenset(atoms)
-                need = extent.norm_poly(need_key, st)
-                lbs = len_lower_bounds(st, starlen)
-                if need is None or any(prove_nonneg(lb - need, st) for lb in lbs):
-                    out.append(("ev", "lenguard-ok"))
-                else:
-                    weak_edges.append((node, need, lbs))
             return out
         F = holder["F"] = Facts.__new__(Facts)
         F.__init__(prog, g, edge_gen=edge_gen, mark_thrown=False)
         bad = []
         weak = []
         writes = 0
+        unbounded = need_key == "unbounded"
         for nd in sorted((x for x in g.nodes if x.kind == "el" and not x.proto), key=lambda x: x.id):
             s = F.IN.get(nd)
             if s is None:
@@ -470,14 +483,42 @@ def rule_rec_guard(ctx, prog, chk):
             if ("ev", "lenguard") not in s:
                 bad.append(nd)
                 continue
-            if ("ev", "lenguard-ok") not in s and weak_edges:
-                # some path reaches this write through a test that does not imply the contract
-                weak.append((nd, weak_edges[0][1], weak_edges[0][2]))
+            # bounded by the capacity itself: memset(buf, 0, *len)
+            if any(c[1] in ("memset", "memcpy") and len(c[2]) == 3 and ir.base_var(fn, c[2][0]) == bufv and key(fn, c[2][2]) == starlen for c in ir.calls_in(fn, nd.el.e)):
+                continue
+            # the index of the store is itself compared with the capacity: buf[i] with i < *len in force
+            idx_ok = False
+            for sub in ir.walk(fn, nd.el.e):
+                if sub[0] in ("=", "o="):
+                    l = ir.strip_casts(sub[1] if sub[0] == "=" else sub[2])
+                    if isinstance(l, list) and l[0] == "x" and ir.base_var(fn, l[1]) == bufv:
+                        ik = key(fn, l[2])
+                        if isinstance(ik, tuple) and ik[0] == "u" and ik[1] in ("p++", "p--"):
+                            ik = ik[2]
+                        for a in s:
+                            if a[0] == "rel" and ((a[1] == ik and a[2] == "<" and a[3] == starlen) or (a[3] == ik and a[2] == ">" and a[1] == starlen)):
+                                idx_ok = True
+            if idx_ok:
+                continue
+            if unbounded:
+                weak.append((nd, None, []))
+                continue
+            # a lower bound of the capacity that is still in force at the write (its operands unchanged since the test)
+            need = extent.norm_poly(need_key, s)
+            lbs = len_lower_bounds(s, starlen)
+            if need is None:
+                raise AnalysisBroken("REC-GUARD: the contract of %s cannot be normalised any more" % fn.name)
+            if not any(prove_nonneg(lb - need, s) for lb in lbs):
+                weak.append((nd, need, lbs))
         n += 1
         if weak and not bad:
             nd, need, lbs = weak[0]
-            chk.fail("REC-GUARD", fn, fn.vars[bufv]["n"] + ":bound", "the test of *%s admits a buffer shorter than the %s entries the recoder writes (tested lower bound: %s)" % (
-                fn.vars[lenv]["n"], need.fmt(fn), " | ".join(lb.fmt(fn) for lb in lbs) or "none that is still valid at the write"), line=nd.line())
+            if need is None:
+                chk.fail("REC-GUARD", fn, fn.vars[bufv]["n"] + ":bound", "the number of entries written depends on the digits produced, not on the quantity *%s was compared with, and the store `%s` is not bounded by *%s itself" % (
+                    fn.vars[lenv]["n"], fn.fmt(nd.el.e)[:40], fn.vars[lenv]["n"]), line=nd.line())
+            else:
+                chk.fail("REC-GUARD", fn, fn.vars[bufv]["n"] + ":bound", "the test of *%s admits a buffer shorter than the %s entries the recoder writes (lower bound of *%s in force at `%s`: %s)" % (
+                    fn.vars[lenv]["n"], need.fmt(fn), fn.vars[lenv]["n"], fn.fmt(nd.el.e)[:30], " | ".join(lb.fmt(fn) for lb in lbs) or "none: the compared quantity has been overwritten since the test"), line=nd.line())
             continue
         if bad:
             chk.fail("REC-GUARD", fn, fn.vars[bufv]["n"], "write through the caller's buffer is reachable without a preceding test of *%s whose failing side leaves the function: %s" % (
@@ -762,6 +803,27 @@ def rule_div0(ctx, prog, chk):
 
 
 # ---------------------------------------------------------------------- entry points
+# ---------------------------------------------------------------------- REALLOC-KEEP
+def rule_realloc(ctx, prog, chk):
+    """the result of realloc is not stored over its own argument: when the reallocation fails the object keeps a null
+    pointer (and the old block leaks) although the failure is reported as recoverable"""
+    n = 0
+    for fn in prog.all:
+        for el in fn.all_elements():
+            for sub in ir.walk(fn, el.e):
+                if sub[0] != "=":
+                    continue
+                r = ir.peel(fn, sub[2])
+                if isinstance(r, list) and r and r[0] == "c" and r[1] == "realloc" and r[2]:
+                    n += 1
+                    if key(fn, sub[1]) == key(fn, r[2][0]):
+                        chk.fail("REALLOC-KEEP", fn, fn.fmt(sub[1])[:30], "`%s` stores the result of realloc over the pointer that was reallocated: on failure the object is left with a null pointer "
+                                 "although ERR_NO_MEMORY is reported as recoverable" % fn.fmt(sub)[:60], line=el.line)
+                    else:
+                        chk.ok("REALLOC-KEEP", fn, fn.fmt(sub[1])[:30], "result kept in a temporary until tested", line=el.line)
+    return n
+
+
 def analyse(ctx, prog, chk, dyn=False):
     chk.used_program(prog)
     chk.assumptions = ["symbols in extent proofs denote non-negative quantities (sizes, counts, indices, bit lengths)",
@@ -770,6 +832,7 @@ def analyse(ctx, prog, chk, dyn=False):
     if dyn:
         from . import c08_typestate
         out["typestate"] = c08_typestate.rule_typestate(ctx, prog, chk)
+        out["realloc"] = rule_realloc(ctx, prog, chk)
     if not dyn:
         out["buf_len"] = rule_buf_len(ctx, prog, chk)
         out["rec_guard"] = rule_rec_guard(ctx, prog, chk)
@@ -777,6 +840,9 @@ def analyse(ctx, prog, chk, dyn=False):
         out["copy_in"] = rule_copy_in(ctx, prog, chk)
         out["n0"] = rule_n0(ctx, prog, chk)
         out["div0"] = rule_div0(ctx, prog, chk)
+        from . import c08_wrap, c08_wguard
+        out["wrap"] = c08_wrap.analyse(ctx, prog, chk)
+        out["wguard"] = c08_wguard.analyse(ctx, prog, chk)
     return out
 
 
@@ -793,6 +859,9 @@ def run(ctx, chk):
     chk.floor("N0", "element [0]/[n-1] accesses in batch functions", c["n0"], 20)
     d = analyse(ctx, ctx.program("DYN"), chk, dyn=True)
     chk.floor("TYPESTATE", "handle variables (DYN)", d["typestate"], 1500)
+    chk.floor("REALLOC-KEEP", "reallocations (DYN)", d["realloc"], 1)
+    chk.floor("WRAP", "unsigned subtractions in conditions (BASE)", c["wrap"], 20)
+    chk.floor("WRITE-GUARD", "writes through caller buffers with a capacity (BASE)", c["wguard"], 120)
     if chk.tier == "thorough":
         for cfg in ("P255", "P381"):
             analyse(ctx, ctx.program(cfg), chk)
